@@ -149,6 +149,15 @@ Definition udef_valid (u : udef) : bool :=
 Definition truthy (o : option string) : option string :=
   match o with Some (String c r) => Some (String c r) | _ => None end.
 
+(* a parser rule of the user's file that names a flag the compiler already has takes the
+   flag over: the earlier rules lose it, a rule with no flag left is dropped *)
+Definition restrict (fl : list string) (r : rule) : rule :=
+  {| r_flags := filter (fun f => negb (smem f fl)) (r_flags r); r_act := r_act r; r_dest := r_dest r;
+     r_default := r_default r |}.
+Definition strip_flags (fl : list string) (rs : list rule) : list rule :=
+  filter (fun r => match r_flags r with [] => false | _ => true end) (map (restrict fl) rs).
+Definition add_rule (rs : list rule) (r : rule) : list rule := strip_flags (r_flags r) rs ++ [r].
+
 (* body of the loop over the user's [compiler.*] tables *)
 Definition merge_one (t : table) (nd : string * udef) : table :=
   let (name, d) := nd in
@@ -161,7 +170,7 @@ Definition merge_one (t : table) (nd : string * udef) : table :=
           aset name
             {| c_alias := None;
                c_opts := c_opts c ++ odflt o;
-               c_rules := c_rules c ++ odflt r;
+               c_rules := fold_left add_rule (odflt r) (c_rules c);
                c_modes := fold_left (fun d m => aset (m_name m) m d) (odflt m) (c_modes c);
                c_passes := fold_left (fun d p => aset (p_name p) p d) (odflt p) (c_passes c) |} t
       end
